@@ -15,7 +15,8 @@ C03, C05, C25 that are cherry-picked there), the three stages a grammar text goe
   `_update_attr_multiplicities`, `visit_import_stm`, `visit_reference_stm`,
   `visit_textx_model`): functions `visit*`, `visitRule`, `firstPass`.
 * stage 2  `second_textx_model`: `_resolve_rule_refs` (`resolveCross`,
-  `resolvePeg`, `stage2`), `_determine_rule_types` (the attribute accesses it
+  `resolvePeg`, `stage2`), the refresh of the comments model (`refreshComments`; the first
+  read is `visit_textx_model`, `commentsModel`), `_determine_rule_types` (the attribute accesses it
   performs: `stage3`), `_resolve_cls_refs` (`stage4`), with
   `TextXMetaModel.__getitem__` / `__contains__` (`getitem`, `contains`).
 
@@ -239,6 +240,46 @@ def pyLen (v : PVal) : M Nat :=
   match v with
   | .str s => pure s.length
   | .bool _ => throw (.py .typeError)
+
+/-! ## `try … except H`: the exception classes the handlers of the code name
+
+An independent reading of Python's `try: body  except H: handler`: the handler runs
+exactly when the raised exception is an instance of `H` (`issubclass(type(e), H)`; the table
+`PyExc.isa` is compared with `issubclass` of the running interpreter on every run of the
+check).  `visitLit`, `contains`, `resolveAttr` below are written as explicit case
+distinctions; Proofs/GramLoadClass.lean shows that they are `tryExcept` with the class
+named in the code (`*_spec`). -/
+
+/-- the classes named in `except` clauses of `lang.py` / `metamodel.py` on the paths
+modelled here: `Exception`, `ValueError`, `KeyError`, `re.error` (the last one only in the
+seeded variant C23-2) -/
+inductive Handler
+  | exception | valueError | keyError | reError
+deriving DecidableEq, Repr
+
+/-- `issubclass(E, H)` in the builtin hierarchy: everything is an `Exception`;
+`UnicodeDecodeError < UnicodeError < ValueError`; `KeyError < LookupError` and `re.error`
+have no subclass among the classes of `PyExc`.  `other` stands for an `Exception` subclass
+outside the three narrower handlers. -/
+def PyExc.isa : PyExc → Handler → Bool
+  | _, .exception => true
+  | .valueError, .valueError => true
+  | .unicodeDecodeError, .valueError => true
+  | .keyError, .keyError => true
+  | .reError, .reError => true
+  | _, _ => false
+
+/-- the textX error classes derive from `Exception` and from none of the narrower handlers -/
+def Exc.caughtBy : Exc → Handler → Bool
+  | .py e, h => e.isa h
+  | _, .exception => true
+  | _, _ => false
+
+/-- `try: body  except h: handler` -/
+def tryExcept {α : Type} (body : M α) (h : Handler) (handler : M α) : M α :=
+  match body with
+  | .ok a => .ok a
+  | .error e => if e.caughtBy h then handler else .error e
 
 /-! ## first pass: literals, modifiers, rule parameters -/
 
@@ -658,15 +699,37 @@ def resolveAttr (env : Env) (st : St) (a : Attr) : M Unit :=
 def stage4 (env : Env) (st : St) : M Unit :=
   st.ns.forM fun c => c.attrs.forM (resolveAttr env st)
 
-def secondPass (env : Env) (st : St) : M Unit := do
+/-- `visit_textx_model` (last step of the first pass) and, since fix f957bf6, again
+`second_textx_model` after the rule references are resolved:
+`if "Comment" in metamodel: comments_model = metamodel["Comment"]._tx_peg_rule`
+(every class has `_tx_peg_rule`: `_init_class`).  The result says whether there is a
+comments model. -/
+def commentsModel (env : Env) (st : St) : M Bool := do
+  let found ← contains env st "Comment"
+  if found then do
+    let _ ← getitem env st "Comment"
+    pure true
+  else pure false
+
+/-- `second_textx_model`: `if model_parser.comments_model is not None and "Comment" in
+model_parser.metamodel: model_parser.comments_model = …["Comment"]._tx_peg_rule` -/
+def refreshComments (env : Env) (st : St) (hasComments : Bool) : M Unit :=
+  if hasComments then do
+    let _ ← commentsModel env st
+    pure ()
+  else pure ()
+
+def secondPass (env : Env) (st : St) (hasComments : Bool) : M Unit := do
   stage2 env st
+  refreshComments env st hasComments
   stage3 st
   stage4 env st
 
 /-- `metamodel_from_str` on a grammar text that parses to `g` -/
 def compile (env : Env) (g : Grammar) : M Unit := do
   let st ← firstPass g
-  secondPass env st
+  let hc ← commentsModel env st                      -- visit_textx_model
+  secondPass env st hc
 
 /-- `language_from_str` on a text the grammar parser rejects: `NoMatch` is
 wrapped into `TextXSyntaxError` -/
@@ -703,17 +766,55 @@ def errsOr (es : List Exc) (k : List (M Unit)) : List (M Unit) :=
   | e :: es' => (e :: es').map .error
 
 /-- the possible outcomes of the second pass -/
-def outcomes2 (env : Env) (st : St) : List (M Unit) :=
+def outcomes2 (env : Env) (st : St) (hasComments : Bool) : List (M Unit) :=
   errsOr (candidates2 env st)
-    (match stage3 st with
+    (match refreshComments env st hasComments with
      | .error e => [.error e]
-     | .ok _ => errsOr (candidates4 env st) [.ok ()])
+     | .ok _ =>
+        match stage3 st with
+        | .error e => [.error e]
+        | .ok _ => errsOr (candidates4 env st) [.ok ()])
 
 /-- the outcomes `metamodel_from_str` can have on `g` when the order in which the
 second pass meets the references is left open -/
 def outcomes (env : Env) (g : Grammar) : List (M Unit) :=
   match firstPass g with
   | .error e => [.error e]
-  | .ok st => outcomes2 env st
+  | .ok st =>
+      match commentsModel env st with
+      | .error e => [.error e]
+      | .ok hc => outcomes2 env st hc
+
+/-! ## where the two error classes the property statement does not name come from
+
+Independent, syntactic conditions on the parse tree (no visitor function is used):
+Props/C23.lean shows that `TextXError` needs `hasBadParam`, `TextXRegistrationError`
+needs `hasUnregistered`. -/
+
+/-- a rule parameter, as written in the grammar text, that lacks the string value it
+needs: `ws`, `nows`, `split`, `nosplit` without a value, or `split=''` -/
+def badParamValue : String × Option String → Bool
+  | (n, none) => n == "ws" || n == "nows" || n == "split" || n == "nosplit"
+  | (n, some v) => n == "split" && v.length == 0
+
+def Rule.hasBadParam (r : Rule) : Bool :=
+  match r.params with
+  | none => false
+  | some ps => ps.any badParamValue
+
+def Grammar.hasBadParam (g : Grammar) : Bool := (g.first :: g.rest).any Rule.hasBadParam
+
+/-- a `reference` statement names a language that is not registered -/
+def Grammar.hasUnregistered (env : Env) (g : Grammar) : Bool :=
+  g.stms.any fun s =>
+    match s with
+    | .reference lang _ => (env.langs lang).isNone
+    | .imp => false
+
+def Grammar.hasReference (g : Grammar) : Bool :=
+  g.stms.any fun s =>
+    match s with
+    | .reference _ _ => true
+    | .imp => false
 
 end GramLoad
